@@ -27,6 +27,7 @@ from vlib import lit, ref, tmap
 CFG = '''SPECIFICATION %(spec)s
 CONSTANTS
  Family = "%(family)s"
+ Custom <- NoCustom
  ErrCap = %(errcap)d
  Retries = %(retries)d
  AllowCancel = %(cancel)s
@@ -103,6 +104,8 @@ def model_part(ctx, pid):
 STRICT_CFG = '''SPECIFICATION TSpec
 CONSTANTS
  Family = "%s"
+ Custom <- %s
+ CustomFile = "custom.json"
  ErrCap = 20
  Retries = 3
  AllowCancel = TRUE
@@ -171,7 +174,7 @@ def strict_scenarios(rng, n, gates, points):
     return out
 
 
-def validate_events(evs, family, work, name, keep=False):
+def validate_events(evs, family, work, name, keep=False, custom=None):
     """one TLC run of EngineStrict.tla over one projected trace; returns (accepted, index of the first event that could
     not be consumed or None, tail of TLC output)"""
     d = os.path.join(work, name)
@@ -179,7 +182,8 @@ def validate_events(evs, family, work, name, keep=False):
     shutil.copy(os.path.join(vlib.SPEC, 'Engine.tla'), d)
     shutil.copy(os.path.join(vlib.SPEC, 'trace', 'EngineStrict.tla'), d)
     json.dump(evs, open(os.path.join(d, 'trace.json'), 'w'))
-    open(os.path.join(d, 'EngineStrict.cfg'), 'w').write(STRICT_CFG % family)
+    json.dump(custom or {}, open(os.path.join(d, 'custom.json'), 'w'))
+    open(os.path.join(d, 'EngineStrict.cfg'), 'w').write(STRICT_CFG % (family, 'CustomDef' if custom else 'NoCustom'))
     env = dict(os.environ, JAVA_TOOL_OPTIONS='-Dtlc2.tool.queue.IStateQueue=StateDeque -Xss64m')
     p = subprocess.run(['timeout', '300', 'tlc', '-workers', '1', '-metadir', os.path.join(d, 'md'), 'EngineStrict.tla'], cwd=d, capture_output=True, text=True, env=env)
     out = p.stdout + p.stderr
@@ -192,39 +196,70 @@ def validate_events(evs, family, work, name, keep=False):
     return ok, (int(m.group(1)) if m else None), ran, st, out[-600:]
 
 
-def strict_part(ctx, n_quick=24, n_thorough=600, gates=(), points=()):
+GEN_PROFILE = dict(max_steps=4, p_tag=0.0, p_enabled=0.0, p_stop=0.0, p_waitfor=0.3, p_deployexpr=0.2, p_sum=0.4, p_multi=0.7, p_error=0.2, p_alt=0.15,
+                   p_crash=0.1, p_deployfail=0.1, engine_outputs=True)
+
+
+def generated_scenarios(rng, n):
+    """generated workflows inside the fragment Engine.tla models (Family = "custom"): plugin steps, literal and plain
+    reference inputs, wait_for, deploy-time expressions, several outputs; random outcomes, noise, cancellation"""
+    out = []
+    tries = 0
+    while len(out) < n and tries < 40 * n + 40:
+        tries += 1
+        wf, oc, script, inp = gen.gen_workflow(rng, GEN_PROFILE)
+        cu = strict.custom_of(wf)
+        if cu is None:
+            continue
+        cancel = rng.choice([None, None, None, 5, 20, 60])
+        sch = gen.noise_schedule(rng, max_us=rng.choice([200, 1500])) if rng.random() < 0.7 else None
+        sc = gen.make_scenario(wf, script, inp, sch, timeout_ms=30000)
+        if cancel is not None:
+            sc['runs'] = [{'input': inp, 'cancel_after_ms': cancel}]
+        out.append(('custom', 'generated workflow with %d steps, cancel=%s' % (len(cu['steps']), cancel), sc, cu))
+    return out
+
+
+def strict_part(ctx, n_quick=24, n_thorough=600, gates=(), points=(), gen_quick=12, gen_thorough=400):
     rng = random.Random(ctx.seed * 31337 + 9)
-    scs = strict_scenarios(rng, n_quick if ctx.quick else n_thorough, list(gates), list(points))
+    scs = [x + (None,) for x in strict_scenarios(rng, n_quick if ctx.quick else n_thorough, list(gates), list(points))]
+    scs += generated_scenarios(rng, gen_quick if ctx.quick else gen_thorough)
     binary = ctx.binary()
     results = vlib.run_scenarios(binary, [x[2] for x in scs], ctx.work, prefix='x')
     jobs = []
-    for (fam, desc, sc), r in zip(scs, results):
+    for (fam, desc, sc, cu), r in zip(scs, results):
         if r['result'] is None or r['code'] not in (0, 3) or not os.path.exists(r['trace']):
             ctx.inconclusive('strict mode: harness died for %s: %s' % (desc, (r['stderr'] or '')[-200:]))
             continue
-        runs = strict.one_run_events(r['trace'])
+        if r['result'].get('prepare_err'):
+            continue
+        runs = strict.one_run_events(r['trace'], wfout={} if cu else None)
         if runs:
-            jobs.append((fam, desc, runs[0], os.path.basename(r['dir'])))
+            jobs.append((fam, desc, runs[0], os.path.basename(r['dir']), cu, sc))
     with cf.ThreadPoolExecutor(max_workers=max(2, vlib.NCPU // 2)) as ex:
-        outs = list(ex.map(lambda j: validate_events(j[2], j[0], ctx.work, 'strict-' + j[3]), jobs))
+        outs = list(ex.map(lambda j: validate_events(j[2], j[0], ctx.work, 'strict-' + j[3], custom=j[4]), jobs))
     accepted, events, states = 0, 0, 0
     good = []
-    for (fam, desc, evs, name), (ok, stuck, ran, st, tail) in zip(jobs, outs):
+    for (fam, desc, evs, name, cu, sc), (ok, stuck, ran, st, tail) in zip(jobs, outs):
         states += st.get('distinct', 0)
         if not ran:
             ctx.inconclusive('EngineStrict.tla did not run for %s: %s' % (desc, tail))
         elif ok:
             accepted += 1
             events += len(evs)
-            good.append((fam, evs))
+            good.append((fam, evs, cu))
         else:
             e = evs[stuck - 1] if stuck and stuck <= len(evs) else {}
-            ctx.add('DRIFT', 'execution-is-not-a-behaviour-of-Engine.tla', '%s: event %s of %d not allowed: %s' % (
-                desc, stuck, len(evs), {k: v for k, v in e.items() if v not in ('nil', -1, 0, True, False)}))
+            # keep what is needed to look at it: the projected events, the workflow record, the scenario
+            os.makedirs(os.path.join(vlib.VERIF, 'replays'), exist_ok=True)
+            keep = os.path.join(vlib.VERIF, 'replays', 'DRIFT-%s-%s-%d.json' % (ctx.pid, name, ctx.seed))
+            json.dump({'family': fam, 'what': desc, 'stuck_at_event': stuck, 'events': evs, 'custom': cu, 'scenario': sc}, open(keep, 'w'))
+            ctx.add('DRIFT', 'execution-is-not-a-behaviour-of-Engine.tla', '%s: event %s of %d not allowed: %s (kept in %s)' % (
+                desc, stuck, len(evs), {k: v for k, v in e.items() if v not in ('nil', -1, 0, True, False)}, keep))
     # binding self-test: a corrupted trace must be rejected
     rejected = 0
     tried = 0
-    for fam, evs in good[:6]:
+    for fam, evs, cu in good[:6]:
         e2 = [dict(x) for x in evs]
         cand = [j for j, x in enumerate(e2) if x['k'] in ('Set', 'HB', 'Prov', 'Slot', 'Res', 'HE', 'Exit')]
         if not cand:
@@ -238,7 +273,7 @@ def strict_part(ctx, n_quick=24, n_thorough=600, gates=(), points=()):
         else:
             e2.insert(i, dict(e2[i]))
         tried += 1
-        ok, stuck, ran, st, tail = validate_events(e2, fam, ctx.work, 'strict-self-%d' % tried)
+        ok, stuck, ran, st, tail = validate_events(e2, fam, ctx.work, 'strict-self-%d' % tried, custom=cu)
         if ran and not ok:
             rejected += 1
         elif ran:
